@@ -36,6 +36,29 @@ class _Top(Elaboratable):
         return m
 
 
+class _WithSecondCallers(Elaboratable):
+    def __init__(self, tc, dut, names, registry):
+        from transactron.lib import AdapterTrans
+        from transactron.testing import TestbenchIO
+
+        self._tc = tc
+        self._ios = registry
+        for n in names:
+            base = n.rstrip("0123456789")
+            meth = getattr(dut, n) if hasattr(dut, n) else getattr(dut, base)[int(n[len(base) :])]
+            registry[n + "_b"] = TestbenchIO(AdapterTrans.create(meth))
+
+    def __getattr__(self, name):
+        return getattr(self._tc, name)
+
+    def elaborate(self, platform):
+        m = Module()
+        m.submodules.tc = self._tc
+        for n, io in self._ios.items():
+            m.submodules[n] = io
+        return m
+
+
 def to_py(v: Any) -> Any:
     """Convert a sampled amaranth value (int, data.Const of struct/array, enum) to plain python."""
     if isinstance(v, adata.Const):
@@ -66,6 +89,7 @@ class Harness:
         scheduler=None,
         wrap: Optional[Callable[[Any], Any]] = None,
         test_circuit: bool = True,
+        second_callers: tuple = (),
     ):
         self.dm = DependencyManager()
         if dm_setup is not None:
@@ -73,6 +97,11 @@ class Harness:
         with DependencyContext(self.dm):
             self.dut = make_dut()
             self.tc = SimpleTestCircuit(self.dut) if test_circuit else self.dut
+            # second, independent callers (their own AdapterTrans transaction) of some provided methods: "read" or,
+            # for an element of a Methods list, "alloc0"; they appear as io "<name>_b"
+            self.extra_ios: dict[str, Any] = {}
+            if second_callers:
+                self.tc = _WithSecondCallers(self.tc, self.dut, second_callers, self.extra_ios)
             top = wrap(self.tc) if wrap is not None else self.tc
             tm = TransactionManager(scheduler) if scheduler is not None else TransactionManager()
             self.top = _Top(TransactronContextElaboratable(top, dependency_manager=self.dm, transaction_manager=tm))
@@ -83,6 +112,9 @@ class Harness:
         """Flatten TestbenchIOs: a Methods attribute `x` yields x0, x1, ..."""
         out = []
         for n in names:
+            if n in self.extra_ios:
+                out.append((n, self.extra_ios[n]))
+                continue
             io = getattr(self.tc, n)
             if isinstance(io, list):
                 out += [(f"{n}{i}", x) for i, x in enumerate(io)]
